@@ -90,7 +90,7 @@ pub struct DependencySnapshot {
         feature = "serde",
         serde(default, skip_serializing_if = "Mapping::is_empty")
     )]
-    pub version_set_unions: Mapping<VersionSetUnionId, HashSet<VersionSetId>>,
+    pub version_set_unions: Mapping<VersionSetUnionId, Vec<VersionSetId>>,
 
     /// All the version sets in the snapshot
     #[cfg_attr(
@@ -236,7 +236,10 @@ impl DependencySnapshot {
                                         }
                                     }
                                     Requirement::Union(version_set_union_id) => {
-                                        let version_sets: HashSet<_> = cache
+                                        // The order of the members is part of the provider's
+                                        // preference (candidates of earlier members are tried
+                                        // first), so it is stored as listed.
+                                        let version_sets: Vec<_> = cache
                                             .provider()
                                             .version_sets_in_union(version_set_union_id)
                                             .collect();
@@ -449,19 +452,12 @@ impl Interner for SnapshotProvider<'_> {
         &self,
         version_set_union_id: VersionSetUnionId,
     ) -> impl Iterator<Item = VersionSetId> {
-        // The members are stored as a hash set whose iteration order differs from
-        // one instance (and one process) to the next. Return them in a fixed order so
-        // that solving through a snapshot is reproducible.
-        let mut version_sets: Vec<_> = self
-            .snapshot
+        self.snapshot
             .version_set_unions
             .get(version_set_union_id)
             .expect("missing constraint")
             .iter()
             .copied()
-            .collect();
-        version_sets.sort();
-        version_sets.into_iter()
     }
 }
 
